@@ -226,4 +226,70 @@ theorem cellStep_sound (H : Hyp sc cl x y W) (i j : Nat) (hi : i + 1 ≤ x.lengt
       rw [hn]
       exact jw_row0_xpre H h (by omega) hi
 
+/-! ### What the S field says about the layer
+
+`gap_open_after_xclip` / `gap_open_after_yclip` look at the S field of the cell a tracker points to.  The S field of a
+main-loop cell is `DEL` (`INS`) only when `best_d_score` (`best_i_score`) won, so the S value then *is* the D (I) value
+and inherits its layer; the tracker updates `S[curr][m] = S[curr][i] + xclip_suffix`, `Sn[i] = S[curr][i] + yclip_suffix`
+keep that layer (`jw_xsuf_del`, `jw_ysuf_ins`).  Together: the layer hypotheses of `cellStep_sound` for the repaired
+transitions are exactly what the previous cells establish. -/
+
+/-- a candidate with a field other than `f` keeps "field `f` ⇒ value `v`" -/
+theorem keep_field {f t : Tb} {v a : Int} {p : Int × Tb} (ht : t ≠ f) (hp : p.2 = f → p.1 = v) :
+    (if a > p.1 then (a, t) else p).2 = f → (if a > p.1 then (a, t) else p).1 = v := by
+  split
+  · intro h; exact absurd h ht
+  · exact hp
+
+/-- the candidate with field `f` and value `v` establishes it -/
+theorem set_field {f : Tb} {v : Int} {p : Int × Tb} (hp : p.2 = f → p.1 = v) :
+    (if v > p.1 then (v, f) else p).2 = f → (if v > p.1 then (v, f) else p).1 = v := by
+  split
+  · intro _; rfl
+  · exact hp
+
+theorem pickS_del_field (isM eq : Bool) (m_score base bi bd xclip yclip : Int)
+    (h : (pickS isM eq m_score base bi bd xclip yclip).2 = .del) :
+    (pickS isM eq m_score base bi bd xclip yclip).1 = bd := by
+  unfold pickS at h ⊢
+  have h0 : ((base, if isM then Tb.xsuf else Tb.start) : Int × Tb).2 = .del →
+      ((base, if isM then Tb.xsuf else Tb.start) : Int × Tb).1 = bd := by
+    cases isM <;> (intro h; cases h)
+  have h1 := keep_field (f := .del) (t := if eq then Tb.mat else Tb.subst) (a := m_score)
+    (by cases eq <;> decide) h0
+  have h2 := keep_field (f := .del) (t := .ins) (a := bi) (by decide) h1
+  have h3 := set_field (f := .del) (v := bd) h2
+  have h4 := keep_field (f := .del) (t := .xpre) (a := xclip) (by decide) h3
+  exact keep_field (f := .del) (t := .ypre) (a := yclip) (by decide) h4 h
+
+theorem pickS_ins_field (isM eq : Bool) (m_score base bi bd xclip yclip : Int)
+    (h : (pickS isM eq m_score base bi bd xclip yclip).2 = .ins) :
+    (pickS isM eq m_score base bi bd xclip yclip).1 = bi := by
+  unfold pickS at h ⊢
+  have h0 : ((base, if isM then Tb.xsuf else Tb.start) : Int × Tb).2 = .ins →
+      ((base, if isM then Tb.xsuf else Tb.start) : Int × Tb).1 = bi := by
+    cases isM <;> (intro h; cases h)
+  have h1 := keep_field (f := .ins) (t := if eq then Tb.mat else Tb.subst) (a := m_score)
+    (by cases eq <;> decide) h0
+  have h2 := set_field (f := .ins) (v := bi) h1
+  have h3 := keep_field (f := .ins) (t := .del) (a := bd) (by decide) h2
+  have h4 := keep_field (f := .ins) (t := .xpre) (a := xclip) (by decide) h3
+  exact keep_field (f := .ins) (t := .ypre) (a := yclip) (by decide) h4 h
+
+/-- S field `DEL` ⇒ the S value is the D value -/
+theorem cellStep_del_field (sc : Sc) (isM eq : Bool) (w sDiag iUp sUp dLeft sLeft base : Int) (tsUp tsLeft : Tb)
+    (clipI : Option Int) (gox xclip yclip : Int)
+    (h : (cellStep sc isM eq w sDiag iUp sUp dLeft sLeft base tsUp tsLeft clipI gox xclip yclip).ts = .del) :
+    (cellStep sc isM eq w sDiag iUp sUp dLeft sLeft base tsUp tsLeft clipI gox xclip yclip).s =
+    (cellStep sc isM eq w sDiag iUp sUp dLeft sLeft base tsUp tsLeft clipI gox xclip yclip).d :=
+  pickS_del_field _ _ _ _ _ _ _ _ h
+
+/-- S field `INS` ⇒ the S value is the I value -/
+theorem cellStep_ins_field (sc : Sc) (isM eq : Bool) (w sDiag iUp sUp dLeft sLeft base : Int) (tsUp tsLeft : Tb)
+    (clipI : Option Int) (gox xclip yclip : Int)
+    (h : (cellStep sc isM eq w sDiag iUp sUp dLeft sLeft base tsUp tsLeft clipI gox xclip yclip).ts = .ins) :
+    (cellStep sc isM eq w sDiag iUp sUp dLeft sLeft base tsUp tsLeft clipI gox xclip yclip).s =
+    (cellStep sc isM eq w sDiag iUp sUp dLeft sLeft base tsUp tsLeft clipI gox xclip yclip).i :=
+  pickS_ins_field _ _ _ _ _ _ _ _ h
+
 end RbV.Model.BandedDP
